@@ -180,14 +180,22 @@ Definition drop_suffix (f : list Z) (drop_nl : Z -> bool) (code : list Z) : resu
     Ok (if drop_nl last_c then py_slice code1 0 (-1) else code1)
   else Ok code.
 
-Definition decompress_code (codedata : list Z) : result (Z * list Z * Z) :=
+(* everything up to and including the loop: (code_length, out[:code_length], in_i) *)
+Definition decode_raw (codedata : list Z) : result (Z * list Z * Z) :=
   b4 <- py_get codedata 4 ;; b5 <- py_get codedata 5 ;;
   let code_length := dc_code_length (fun k => if k =? 4 then b4 else b5) in
   _ <- assert_ (zlist_eqb (py_slice codedata dc_assert_lo dc_assert_hi) dc_assert_bytes) ;;
   '(hist, out_i, in_i) <- dec_loop (S (length codedata)) (skipn (Z.to_nat dc_in_i0) codedata) dc_in_i0 []
                                     dc_out_i0 code_length (zlen codedata) ;;
   let out := rev_append hist (repeat 0 (Z.to_nat (code_length - out_i))) in
-  let code := strip_set dc_strip_bytes (py_slice out 0 code_length) in
+  Ok (code_length, py_slice out 0 code_length, in_i).
+
+(* code = bytes(out[:code_length]).strip(b'\x00'), then the two compatibility suffixes are removed *)
+Definition dc_finish (code_length : Z) (out : list Z) (in_i : Z) : result (Z * list Z * Z) :=
+  let code := strip_set dc_strip_bytes out in
   code <- drop_suffix future_code1 dc_drop_newline_0 code ;;
   code <- drop_suffix future_code2 dc_drop_newline_1 code ;;
   Ok (code_length, code, in_i).
+
+Definition decompress_code (codedata : list Z) : result (Z * list Z * Z) :=
+  '(code_length, out, in_i) <- decode_raw codedata ;; dc_finish code_length out in_i.
